@@ -78,7 +78,7 @@ func isKnown(sig string) bool { return !assumeFixed && evid.R.IsKnown(sig) }
 // Workload and result (JSON between parent and child).
 
 type Workload struct {
-	Kind   string `json:"kind"` // chain | pool | event | store | sync
+	Kind   string `json:"kind"` // chain | pool | event | store | sync | tip
 	Procs  int    `json:"procs"`
 	Seed   uint64 `json:"seed"`
 	Budget int    `json:"budget_s"` // wall-clock budget of the child (inconclusive when hit)
@@ -88,6 +88,7 @@ type Workload struct {
 	Event *EventW `json:"event,omitempty"`
 	Store *StoreW `json:"store,omitempty"`
 	Sync  *SyncW  `json:"sync,omitempty"`
+	Tip   *TipW   `json:"tip,omitempty"`
 }
 
 type Failure struct {
@@ -345,24 +346,40 @@ func (g gor) firstEngine() string {
 }
 
 // provenCycle recognises lock cycles that one stop-the-world dump proves (no timing involved):
-// a reader parked in RLock inside blockCache.getByHeight called from blockCache.last (so it already holds the read
-// lock taken by last) while a writer is parked in Lock inside push/pop: the writer waits for that reader's first read
-// lock, the reader's second RLock queues behind the waiting writer.
+// a reader parked in RLock inside one reader method of blockCache (get, getByHeight, last, len) that was called from
+// another one (so it already holds the read lock of the outer call; all of them release by defer) while a writer is
+// parked in Lock inside push/pop/reset: the writer waits for that reader's first read lock, the reader's second RLock
+// queues behind the waiting writer. (C20-F8 was getByHeight called from last.)
 func provenCycle(gs []gor) (string, string) {
+	// every reader method of blockCache takes the read lock and releases it by defer: a goroutine parked in RLock inside
+	// one reader method (inner) that was called from another one (outer) holds the read lock of the outer call.
+	readerMethods := []string{"last", "get", "getByHeight", "len"}
 	var readers, writers []gor
+	sig := ""
 	for _, g := range gs {
 		if g.state == "sync.RWMutex.RLock" {
-			i, j := g.has("blockchain.(*blockCache).getByHeight"), g.has("blockchain.(*blockCache).last")
-			if i >= 0 && j > i {
+			// frames of blockCache reader methods, innermost first
+			var names []string
+			for _, f := range g.frames {
+				for _, m := range readerMethods {
+					if strings.HasSuffix(f, "blockchain.(*blockCache)."+m) {
+						names = append(names, m)
+					}
+				}
+			}
+			if len(names) >= 2 {
 				readers = append(readers, g)
+				if s := "deadlock:blockCache." + names[1] + ":reentrant-rlock"; sig == "" || s == sigReentrant {
+					sig = s
+				}
 			}
 		}
-		if g.state == "sync.RWMutex.Lock" && (g.has("blockchain.(*blockCache).push") >= 0 || g.has("blockchain.(*blockCache).pop") >= 0) {
+		if g.state == "sync.RWMutex.Lock" && (g.has("blockchain.(*blockCache).push") >= 0 || g.has("blockchain.(*blockCache).pop") >= 0 || g.has("blockchain.(*blockCache).reset") >= 0) {
 			writers = append(writers, g)
 		}
 	}
 	if len(readers) > 0 && len(writers) > 0 {
-		return sigReentrant, fmt.Sprintf("%d goroutine(s) hold blockCache's read lock in last() and are parked in the nested RLock of getByHeight() behind a writer parked in Lock:\n%s\n\n%s",
+		return sig, fmt.Sprintf("%d goroutine(s) hold blockCache's read lock in one reader method and are parked in the nested RLock of another one behind a writer parked in Lock:\n%s\n\n%s",
 			len(readers), excerpt(readers[0]), excerpt(writers[0]))
 	}
 	return "", ""
@@ -534,6 +551,8 @@ func childMain(path string) {
 		runStore(r)
 	case "sync":
 		runSync(r)
+	case "tip":
+		runTip(r)
 	default:
 		r.fail("harness", "unknown workload kind %q", w.Kind)
 	}
